@@ -90,7 +90,7 @@ Print Assumptions C01_test_is_structural_equality.
 (* non-vacuity: all six operations, a negative index, "-", "~1", null round trip *)
 Example C01_nonvacuous :
   match api_decode (B "[{""op"":""add"",""path"":""/a/-"",""value"":null},{""op"":""test"",""path"":""/a/-1"",""value"":null},{""op"":""copy"",""from"":""/a"",""path"":""/x~1y""},{""op"":""move"",""from"":""/a/0"",""path"":""/a/1""},{""op"":""replace"",""path"":""/x~1y/0"",""value"":{""k"":1.0}},{""op"":""remove"",""path"":""/b""},{""op"":""test"",""path"":""/a"",""value"":[2,1,null]}]") with
-  | Some p => api_apply (mkOpts true 0 false false true None) [] p (B "{""a"":[1,2],""b"":0}")
+  | Some p => api_apply (mkOpts true 0 false false true [] None) [] p (B "{""a"":[1,2],""b"":0}")
               = ROut (B "{""a"":[2,1,null],""x/y"":[{""k"":1.0},2,null]}")
   | None => False
   end.
